@@ -190,14 +190,30 @@ let show_obs = function
     rc r ^ (match r with Ok (u, t, w) -> Printf.sprintf "%s,%s,%s" (hx u) (hx t) (match w with None -> "n" | Some w -> hx w) | _ -> "") ^ "," ^ show_puts p
   | ObsReceipts (r, p) -> rc r ^ (match r with Ok r -> hx r | _ -> "") ^ "," ^ show_puts p
 
-(* C02_history_sound on the implementation's observations: every Put and every value returned after a lookup is
-   bound to its key (spec = repaired model's verdict = C02_accept_iff) *)
+(* C02_history_sound on the implementation's observations.  Every (key, content) pair the recording storage saw in a
+   Put must be bound FOR THAT KEY by the ground truth on the line (H/B/R of that content, S for that key's hash, all
+   computed by the harness with the library functions; verdict = repaired model = C02_accept_iff), and every value a
+   getter returns must be the decoding of content bound to the requested key - whether it came from the network or
+   from the node's own store.  The store is tracked from the implementation's own Puts. *)
 let parse_puts (s : string) : (bytes * bytes) list =
   if s = "." then [] else
     List.map (fun kc -> match String.split_on_char ':' kc with [k; c] -> (unhx k, unhx c) | _ -> failwith "put") (String.split_on_char '+' s)
 
+(* what a getter prints for content c decoded as type t (the same projection the harness applies to the returned value) *)
+let retid_of tbl (t : int) (c : bytes) : string option =
+  match List.assoc_opt (ub c) tbl with
+  | None -> None
+  | Some tr ->
+    (match t with
+     | 0 -> (match tr.th with HH (h, _) -> Some (hx h.h_rest) | _ -> None)
+     | 1 -> (match tr.tb with Some (u, tx, w) -> Some (Printf.sprintf "%s,%s,%s" (hx u) (hx tx) (match w with None -> "n" | Some w -> hx w)) | None -> None)
+     | _ -> (match tr.tr with Some r -> Some (hx r) | None -> None))
+
+let bound_for tbl (src : bytes -> header option) (k : bytes) (c : bytes) : bool =
+  List.mem_assoc (ub c) tbl && m_validate repaired tbl src k c = Ok ()
+
 let hist_monitors tbl (ops : hop list) (impl_obs : string list) : string list =
-  let store = ref [] in   (* the implementation's store as implied by its own Puts *)
+  let store = ref [] in   (* (key, (content, bound at the time of the Put)) as implied by the implementation's Puts, newest first *)
   let fails = ref [] in
   let add f = fails := f :: !fails in
   (try
@@ -205,30 +221,48 @@ let hist_monitors tbl (ops : hop list) (impl_obs : string list) : string list =
       (* ob = <o|e|p><retid>,<puts>   retid may contain commas: puts is the last comma field *)
       let i = String.rindex ob ',' in
       let head = String.sub ob 0 i and puts = parse_puts (String.sub ob (i + 1) (String.length ob - i - 1)) in
+      let ret = String.sub head 1 (String.length head - 1) in
+      let record src what (k, c) =
+        let bnd = bound_for tbl src k c in
+        if not bnd then add (what ^ " key=" ^ hx k ^ " content=" ^ (let h = hx c in if String.length h > 80 then String.sub h 0 80 ^ ".." else h));
+        store := (ub k, (c, bnd)) :: !store in
       (match o with
        | HOffer its ->
          let src = src_of_items its in
          List.iter (fun (k, c) ->
            let offered = List.exists (fun it -> it.ikey = k && it.icontent = c) its in
-           if not offered then add ("stored-content-not-offered key=" ^ hx k)
-           else if m_validate repaired tbl src k c <> Ok () then add ("unvalidated-content-stored offer key=" ^ hx k)) puts;
+           (* offered under that key but not bound: validation was skipped; not even offered under that key: the
+              bytes of something else ended up under the key *)
+           record src (if offered then "unvalidated-content-stored offer" else "stored-content-not-bound-to-its-key offer") (k, c)) puts;
          if head.[0] = 'p' then add "validate-contents-panics offer"
        | HGet (t, hash, remote, s) ->
          let key = b (t :: ub hash) in
-         let local = List.assoc_opt (ub key) (List.map (fun (k, c) -> (ub k, c)) !store) in
-         (match local with
-          | Some _ -> if puts <> [] then add ("getter-stores-on-local-hit key=" ^ hx key)
+         let src = fun _ -> s in
+         (match List.assoc_opt (ub key) !store with
+          | Some (c, bnd) ->
+            (* served from the node's own store *)
+            if head.[0] = 'o' then begin
+              if not bnd then add ("returned-content-not-bound-to-its-key getter=" ^ string_of_int t ^ " key=" ^ hx key ^ " (served from the local store)");
+              if retid_of tbl t c <> Some ret then add ("getter-returned-other-than-stored getter=" ^ string_of_int t ^ " key=" ^ hx key)
+            end;
+            List.iter (record src ("stored-content-not-bound-to-its-key getter=" ^ string_of_int t)) puts
           | None ->
-            let bound = match remote with Some c -> m_validate repaired tbl (fun _ -> s) key c = Ok () | None -> false in
-            if head.[0] = 'o' && not bound then add ("unvalidated-content-returned getter=" ^ string_of_int t ^ " key=" ^ hx key);
+            let bound = match remote with Some c -> bound_for tbl src key c | None -> false in
+            if head.[0] = 'o' then begin
+              if not bound then add ("unvalidated-content-returned getter=" ^ string_of_int t ^ " key=" ^ hx key)
+              else (match remote with
+                  | Some c when retid_of tbl t c <> Some ret -> add ("getter-returned-other-than-looked-up getter=" ^ string_of_int t ^ " key=" ^ hx key)
+                  | _ -> ())
+            end;
             List.iter (fun (k, c) ->
-              if not (k = key && Some c = remote && bound) then add ("unvalidated-content-stored getter=" ^ string_of_int t ^ " key=" ^ hx k)) puts;
+              let looked_up = k = key && Some c = remote in
+              record src (if looked_up then "unvalidated-content-stored getter=" ^ string_of_int t
+                          else "stored-content-not-bound-to-its-key getter=" ^ string_of_int t) (k, c)) puts;
             if head.[0] = 'e' && bound then
               (match t, remote with
                | 2, Some c when (find tbl c).tr = None -> ()    (* empty receipts that do not decode: nothing to return *)
                | _ -> add ("rejected-genuine-content getter=" ^ string_of_int t ^ " key=" ^ hx key)));
-         if head.[0] = 'p' then add ("getter-panics getter=" ^ string_of_int t));
-      store := List.rev_append (List.rev puts) !store) ops impl_obs
+         if head.[0] = 'p' then add ("getter-panics getter=" ^ string_of_int t))) ops impl_obs
   with Invalid_argument _ -> add "observation-count-mismatch");
   List.rev !fails
 
